@@ -28,10 +28,13 @@ decodable payload: the token IS the decoded value), so the theorems of Props/C04
 nothing changes in Lean.
 """
 import contextlib
+import json
+import os
 import random
 
 import app_sessions as AS
 import bincodec_common as BC
+from common import VERIF
 
 VERSION = 'rich-1'          # the catalogue below is part of every replay file: change the tag when the catalogue changes
 KINDS = ['itch', 'ouch', 'sqf']
@@ -279,7 +282,13 @@ def shrink(sc, prop, key, budget=40):
 def run(ctx, prop='C04'):
     rng = ctx.rng
     n = 100 if ctx.tier == 'quick' else 2500
-    cases = [gen_scenario(random.Random(rng.random())) for _ in range(n)]
+    cases = []
+    cdir = os.path.join(VERIF, 'corpus', 'C04-schema')
+    if os.path.isdir(cdir):
+        for fn in sorted(os.listdir(cdir)):
+            if fn.endswith('.json'):
+                cases.append(AS.sc_from_json(json.load(open(os.path.join(cdir, fn)))['app_scenario']))
+    cases += [gen_scenario(random.Random(rng.random())) for _ in range(n)]
     done, reqs = [], []
     for sc in cases:
         try:
